@@ -11,7 +11,7 @@
 import Proofs.GoTieFmtStr
 import Proofs.GoTieFormat
 import Proofs.GoTieMarshal
-import Proofs.GoTieCtors
+import Proofs.GoTieSmall
 namespace AgeModel
 namespace Tie.C07
 
